@@ -230,6 +230,17 @@ def run(tier):
         ws = walks if bi == 0 else rnd.sample(walks, min(len(walks), 4 if quick else 12))
         for wi, w in enumerate(ws):
             rows.append({"id": "b%04d/w%03d" % (bi, wi), "profile": p, "data": d, "walk": w, "seed": rnd.randrange(1 << 30)})
+        if bi == 0:
+            # the rich profile also gets every single rewrite step on its own, the prefix steps under several renderer
+            # seeds (which prefix is renamed / aliased and to which of the fresh names is the renderer's choice)
+            singles = [("permute:" + o, k) for o in ("top", "validations", "validation", "propertyConstraints", "constraints",
+                                                     "prefixes", "levelList", "operands") for k in (1, 2, 3)]
+            singles += [("style:" + st, k) for st in ("quote", "flow", "comments", "blank", "indent") for k in (1, 2)]
+            singles += [("rename", 1), ("rename", 2), ("alias", 1), ("alias", 2), ("builtinAlias", 1), ("redeclare", 1)]
+            for si, (op, arg) in enumerate(singles):
+                for sd in range(10 if op in ("rename", "alias") else 2):
+                    rows.append({"id": "b%04d/s%03d_%d" % (bi, si, sd), "profile": p, "data": d, "walk": [{"op": op, "arg": arg}],
+                                 "seed": sd * 7919 + si})
     obs = vlib.run_harness("respell", rows, "c15", timeout=3000)
     oby = {o["id"]: o for o in obs}
     rby = {r["id"]: r for r in rows}
@@ -240,7 +251,7 @@ def run(tier):
         if b.get("err"):
             continue       # a fixture that does not validate is not a base
         for rid, o in oby.items():
-            if not rid.startswith("b%04d/w" % bi):
+            if not rid.startswith(("b%04d/w" % bi, "b%04d/s" % bi)):
                 continue
             r = rby[rid]
             for a in o.get("applied") or []:
